@@ -11,7 +11,7 @@ from .c12 import make_api, judge, NAMES
 
 A11 = ["[C]", "[=C]", "[#C]", "[#N]", "[O]", "[Branch1]", "[Ring1]", "[NH2]", "[CH3]"]
 SMILES = ["C#N", "c1ccccc1", "C(F)(F)(F)(F)F", "[NH4+]", "OC=O", "C1CC1"]
-WARM = ["[C][#C][#N]", "[N][=C][Branch1][C][O][#N]", "[C][NH2][CH3]"]
+WARM = ["[C][#C][#N]", "[N][=C][Branch1][C][O][#N]", "[C][NH2][CH3]", "[C][Branch1][F][C][Cl]", "[C][C][C][C][Ring1]"]
 ENC_OPS = [("C#N", False), ("C(F)(F)(F)(F)F", True)]
 
 
@@ -72,6 +72,36 @@ def run(rep, tier, seed, budget):
                 col.candidate({"prop": "C11", "kind": "pure_history", "ops": model_value(m, ops),
                                "selfies": dech.concrete_selfies(m, toks), "smiles": SMILES[si]})
         return path
+
+    def long_level(K):
+        def path(eng, col):
+            ctx.reset()
+            st = hist.State(ctx._presets0)
+            ops = []
+            for i in range(K):
+                op = gen_op(i, ["decode", "encode", "set_preset"])
+                ops.append(op)
+                hist.apply_op(api, st, op)
+            head = make_tokens("h", 1, ["[Ring2]", "[Branch2]", "[=Ring2]"])[0]
+            idx = make_tokens("i", 2, ["[C]", "[Ring1]", "[Ring2]", "[Branch1]", "[O]"])
+            toks = ["[C]"] * 24 + [head] + idx + ["[O]"] * 4
+            d1 = dech.run_decoder(ctx, TokStr(toks))
+            ctx.reset(dict(st.cur))
+            d2 = dech.run_decoder(ctx, TokStr(toks))
+            nd = lambda r: (r[0], str(r[1]) if r[0] == "ok" else "")
+            col.nontrivial((tuple(o["op"] for o in ops), nd(d1)))
+            col.sample({"history": [o.get("x", o.get("s", o.get("name"))) for o in ops], "decoded": nd(d1)[1][:60]})
+            if nd(d1) != nd(d2):
+                m = eng.current_model()
+                col.candidate({"prop": "C11", "kind": "pure_history", "ops": model_value(m, ops),
+                               "selfies": dech.concrete_selfies(m, toks), "smiles": "C"})
+        return path
+
+    left = t_end - time.time()
+    for K in ((1,) if quick else (1, 2)):
+        res = driver.explore_parallel(long_level(K), min(25, left * 0.3))
+        rep.add_part("history of %d calls, then a 24-atom chain with a two-symbol index (free): compared with fresh state" % K, res,
+                     {"K": K, "operations": ["decode", "encode", "set_preset"], "warm-up strings": WARM})
 
     plan = [(0, 2), (1, 2), (2, 2), (1, 3)] if quick else [(0, 3), (1, 3), (2, 3), (3, 2), (2, 4)]
     for K, N in plan:
